@@ -468,6 +468,18 @@ pub fn count_parameters(sql: &str) -> u32 {
     }
 }
 
+/// verif hook: textual parameter substitution used by `BoundStatement::query`.
+#[cfg(kahflane_turdb_verif)]
+pub fn verif_substitute_parameters(sql: &str, params: &[OwnedValue]) -> eyre::Result<String> {
+    substitute_parameters(sql, params)
+}
+
+/// verif hook: SQL literal text produced for one bound value.
+#[cfg(kahflane_turdb_verif)]
+pub fn verif_value_to_sql_literal(value: &OwnedValue) -> String {
+    value_to_sql_literal(value)
+}
+
 #[cfg(test)]
 mod tests {
     use super::*;
